@@ -1,0 +1,32 @@
+//go:build verif
+
+// Exports used only by the external verification harness (build tag `verif`).
+
+package server
+
+import (
+	"context"
+	"log/slog"
+
+	"github.com/oxia-db/oxia/proto"
+)
+
+// VerifInternalRpc is the internal (coordinator / replication) RPC surface of a storage node,
+// with the real dispatch logic of internalRpcServer but without a gRPC listener.
+type VerifInternalRpc interface {
+	NewTerm(c context.Context, req *proto.NewTermRequest) (*proto.NewTermResponse, error)
+	BecomeLeader(c context.Context, req *proto.BecomeLeaderRequest) (*proto.BecomeLeaderResponse, error)
+	AddFollower(c context.Context, req *proto.AddFollowerRequest) (*proto.AddFollowerResponse, error)
+	Truncate(c context.Context, req *proto.TruncateRequest) (*proto.TruncateResponse, error)
+	Replicate(srv proto.OxiaLogReplication_ReplicateServer) error
+	SendSnapshot(srv proto.OxiaLogReplication_SendSnapshotServer) error
+	GetStatus(c context.Context, req *proto.GetStatusRequest) (*proto.GetStatusResponse, error)
+	DeleteShard(c context.Context, req *proto.DeleteShardRequest) (*proto.DeleteShardResponse, error)
+}
+
+func VerifNewInternalRpc(shardsDirector ShardsDirector) VerifInternalRpc {
+	return &internalRpcServer{
+		shardsDirector: shardsDirector,
+		log:            slog.With(slog.String("component", "internal-rpc-server")),
+	}
+}
